@@ -92,7 +92,7 @@ def run(prog, res):
   for p in PATTERNS:
     stmts = guards.trace(prog, bi, _env(p))
     ret = stmts[-1] if stmts and isinstance(stmts[-1], ast.Return) else None
-    got = _bias_value(prog, bi, ret)
+    got = _bias_value(prog, bi, ret, guards.Logic(prog, bi, _env(p), {}))
     exp = {'neither': 'zeros', 'min': 'output_min', 'max': 'output_max',
            'minmax': 'midpoint'}[_pat(p)]
     res.check(got == exp, 'P3',
@@ -154,15 +154,22 @@ def run(prog, res):
   res.floor('P4', 6)
 
 
-def _bias_value(prog, fn, ret):
+def _bias_value(prog, fn, ret, logic=None):
   if ret is None or not isinstance(ret.value, ast.Call):
     return 'none'
   c = ret.value
   ext = prog.ext_name(fn.module, c.func)
   if ext == 'tf.zeros':
     return 'zeros'
-  if ext == 'tf.constant' and c.args:
-    a = c.args[0]
+  if ext == 'tf.constant' and (c.args or c.keywords):
+    a = c.args[0] if c.args else {k.arg: k.value for k in c.keywords}.get(
+        'value')
+    # a value selected by a conditional expression: decided by the state
+    while isinstance(a, ast.IfExp) and logic is not None:
+      t = logic.truth(a.test)
+      if t is None:
+        break
+      a = a.body if t else a.orelse
     d = dotted(a)
     if d in ('output_min', 'output_max'):
       return d
